@@ -8,5 +8,6 @@ CONSTANTS
   Units = {4}
   EmitMod = 1
   EmitRem = 0
+  Fixed = {"AsyncColumn", "DedentCont", "LambdaInClass"}
 CONSTRAINT Verdict
 CHECK_DEADLOCK FALSE
